@@ -71,7 +71,7 @@ RULE = (
     "per transcript (biotype class, strand, #exon blocks, #merged CDS blocks, adjacency, start frame, (len-frame)%3, first-codon "
     "class, 3' complete, in-frame stop, gene pseudo, #isoforms); non-trivial = coding, or multi-exon, or minus strand."
 )
-SCOPE = {"quick": {"NR": 9000, "grid_stride": 1}, "thorough": {"NR": 40000, "grid_stride": 1}}
+SCOPE = {"quick": {"NR": 9000, "grid_stride": 1}, "thorough": {"NR": 100000, "grid_stride": 1}}
 FLOOR = {"quick": 2500, "thorough": 6000}
 REQUIRED_MONITORS = ["tbl.format", "tbl.header", "tbl.structure", "tbl.flavour", "tbl.feature-key", "tbl.intervals", "tbl.partial-5p",
                      "tbl.partial-3p", "tbl.codon-start", "tbl.pseudo", "tbl.locus-tags", "tbl.reproducible", "tbl.operand-unchanged"]
